@@ -55,11 +55,8 @@ func storageInside(info *types.Info, e ast.Expr) bool {
 			}
 			e = x.X
 		case *ast.IndexExpr:
-			if tv, ok := info.Types[x.X]; ok {
-				if _, isArr := tv.Type.Underlying().(*types.Array); !isArr {
-					return false
-				}
-			}
+			// an element of an array is storage inside the variable; an element of a slice or map held in it is not, but it is part
+			// of the "initial value" a composite-literal initializer gives the variable, so a write to it counts as well
 			e = x.X
 		case *ast.Ident:
 			return true
